@@ -2,10 +2,10 @@ SPECIFICATION Spec
 CONSTANTS
   NC = 2
   Caps = {0,1,2,3}
-  Vals = {1,2,3}
+  Vals = {1,2}
   MaxList = 2
 INVARIANTS TypeOK NoJunkVisible JunkBeyondSize
-PROPERTIES Refines CapacityFixed FailedSingleOpChangesNothing CopyIndependent
+PROPERTIES CapacityFixed FailedSingleOpChangesNothing CopyIndependent
 ACTION_CONSTRAINT EmitEdge
 VIEW View
 CHECK_DEADLOCK FALSE
